@@ -28,8 +28,9 @@ def parse_afm(path):
     parser.addErrorListener(listener)
     with contextlib.redirect_stderr(io.StringIO()):
         tree = parser.feature_model()
-    if listener.errors:
-        return None
+    from antlr4 import Token
+    if listener.errors or parser.getCurrentToken().type != Token.EOF:
+        return None          # input left over after the model is a syntax error as well (the start rule has no EOF)
 
     def value(v):
         return tag("vi", v.getText()) if v.INT() is not None else tag("vt", v.getText())
@@ -270,7 +271,7 @@ def emit_afm(m, rng, g):
                 out += f"{f['name']}.{a['name']}: {dom},{a['default']},{a['null']};\n"
     else:
         g.count("afm_choice", "no-attributes-section")
-    if m["ctcs"] or rng.random() < 0.5:
+    if m["ctcs"] or m.get("blocks") or rng.random() < 0.5:
         out += "\n%Constraints\n"
         KW = {"AND": "AND", "OR": "OR", "IMPLIES": "IMPLIES", "EQUIVALENCE": "IFF", "REQUIRES": "REQUIRES", "EXCLUDES": "EXCLUDES"}
         PREC = {"AND": 3, "OR": 2}
@@ -288,6 +289,11 @@ def emit_afm(m, rng, g):
         def wrap(n, parent, right):
             return n
         for _, a in m["ctcs"]:
+            out += full_paren(a, KW, rng, g) + ";\n"
+        for owner, a in m.get("blocks", []):
+            out += owner + " {" + full_paren(a, KW, rng, g) + ";}\n"
+            g.count("afm_choice", "bracket-block")
+        for _, a in m.get("after_blocks", []):
             out += full_paren(a, KW, rng, g) + ";\n"
     else:
         g.count("afm_choice", "no-constraints-section")
@@ -326,6 +332,16 @@ def run_third_party(ctx):
     try:
         for i in range(150 if ctx.tier == "quick" else 2000):
             m = afm_model(g, g.rng.choice([2, 4, 7, 12]))
+            expected = m
+            if g.rng.random() < 0.25:
+                # a feature-scoped block  Owner {expr;}  between plain constraints: the names inside it are read
+                # qualified by the owner, the plain constraints after it are not
+                k = g.rng.randint(0, len(m["ctcs"]))
+                owner = g.rng.choice([f["name"] for f in spec.spec_features(m["root"])])
+                blk = OP(g.rng.choice(["IMPLIES", "AND", "OR"]), T("Xq"), OP("NOT", T("Yq")))
+                qual = OP(blk[0][1], T(owner + ".Xq"), OP("NOT", T(owner + ".Yq")))
+                expected = dict(m, ctcs=m["ctcs"][:k] + [("block", qual)] + m["ctcs"][k:])
+                m = dict(m, ctcs=m["ctcs"][:k], blocks=[(owner, blk)], after_blocks=m["ctcs"][k:])
             text = emit_afm(m, g.rng, g)
             path = sc.path("afm")
             with open(path, "w", encoding="utf-8") as fh:
@@ -334,11 +350,17 @@ def run_third_party(ctx):
             if cst is None:
                 r.oracle_fail("emitter", sx.dumps(text), "valid-document-rejected-by-parser", text[:300])
                 continue
-            read_and_compare(ctx, sc, r, "emitter", path, cst, sx.dumps(text), afm_norm(m), AFMWriter, AFMReader)
+            read_and_compare(ctx, sc, r, "emitter", path, cst, sx.dumps(text), afm_norm(expected), AFMWriter, AFMReader)
         # syntax errors must raise (the parser recovers silently unless the reader installs a listener)
         for bad in ["%Relationships\nA : B [C];\n%Constraints\nB AND NOT C;\n",
                     "%Relationships\nA : B [C;\n", "%Relationships\nA : B [C];\n%Constraints\nB AND;\n",
-                    "%Relationships\nA : [1,2{B C};\n", "%Relationships\nA B;\n"]:
+                    "%Relationships\nA : [1,2{B C};\n", "%Relationships\nA B;\n",
+                    # input left over after a complete model: the grammar's start rule does not demand end of file
+                    "%Relationships\nA : [B] C;\n%Constraints\nB REQUIRES C;\n};\nC REQUIRES B;\n",
+                    "%Relationships\nA : [B] C;\n%Constraints\nB REQUIRES C;\n%Relationships\nX : Y;\n",
+                    "%Relationships\nA : [B] C;\n%Constraints\nA {B IMPLIES C;};\nNOT B;\n",
+                    "%Relationships\nA : [B] C;\n%Constraints\nB REQUIRES C;\n) ;\n",
+                    "%Relationships\nA : [B] C;\n]\n"]:
             path = sc.path("afm")
             with open(path, "w", encoding="utf-8") as fh:
                 fh.write(bad)
